@@ -39,7 +39,14 @@ func (g *gen) newVar(t Type, e string) string {
 }
 
 func (g *gen) randType(label string) Type {
-	return valueTypes[g.intn(len(valueTypes), label)]
+	t := valueTypes[g.intn(len(valueTypes), label)]
+	if g.typeOff(t) {
+		// known finding: a struct copied by value shares the objects behind its reference fields with the original; a
+		// write through one copy afterwards is not seen through the other
+		g.prog.Excluded++
+		return TPS
+	}
+	return t
 }
 
 func (g *gen) sinkStmt() {
@@ -420,6 +427,9 @@ func (g *gen) stmt() {
 			}
 		}
 	case "structcopy":
+		if g.off("struct-value-copy") {
+			return
+		}
 		if ps, ok := g.pickVar(TPS, "scp"); ok {
 			if g.chance(50, "scpdir") || (g.curFn >= 0 && g.off("callee-stores-ref")) {
 				g.newVar(TS, "*"+ps.name)
@@ -834,6 +844,38 @@ func (g *gen) globalStmt() {
 	}
 	g.feat("global")
 	w := g.chance(50, "globw")
+	if g.p.Off["global-indirect-write"] {
+		// known finding: writes THROUGH a global (field of a global struct, element of a global slice/map/array,
+		// object behind a global pointer) are not connected to reads in other functions. Only whole-variable writes of
+		// globals and reads of string-valued parts remain.
+		switch c.name {
+		case "GP", "GS", "GM", "GA":
+			if w {
+				g.prog.Excluded++
+				w = false
+			}
+		case "GL":
+			if w {
+				g.prog.Excluded++
+				g.emit("GL = %s", g.expr(TSlice, 1))
+				g.feat("global-slice")
+				return
+			}
+		}
+		if !w {
+			switch c.name {
+			case "GP":
+				g.newVar(TStr, "GP."+[]string{"A", "B"}[g.intn(2, "gpf")])
+				return
+			case "GL":
+				g.newVar(TStr, "GL[0]")
+				return
+			case "GPP":
+				g.newVar(TStr, "*GPP")
+				return
+			}
+		}
+	}
 	switch c.name {
 	case "G0", "GX", "GF", "GPP":
 		if w {
